@@ -403,7 +403,7 @@ pub fn run(ctx: &Ctx) -> Report {
     {
         let t0 = Instant::now();
         let mut lens: Vec<usize> = vec![];
-        for k in 10..=ctx.tier.pick(21u32, 23) {
+        for k in 10..=ctx.tier.pick(22u32, 24) {
             let b = 1usize << k;
             lens.extend([b - 1, b, b + 1]);
         }
@@ -415,7 +415,7 @@ pub fn run(ctx: &Ctx) -> Report {
                 let body: String = "abcdefghij".chars().cycle().take(n).collect();
                 let lines = vec!["first".to_string(), body, "last".to_string()];
                 for (w, h) in [(80usize, 24usize), (7, 3)] {
-                    if w == 7 && n > (1 << 19) {
+                    if w == 7 && n > (1 << 18) {
                         continue;
                     }
                     let err = match guarded(|| check_one(&lines, w, h, false)) {
